@@ -39,6 +39,23 @@ pub fn apply(lib: &Library) -> SemanticResult {
     Ok(())
 }
 
+/// Returns true if `a` is strictly less than `b`.
+///
+/// Compares the sign and magnitude directly so that bounds of any magnitude
+/// (the magnitude is a `u128`) are handled without a conversion that can fail.
+fn is_strictly_less(a: &SignedInteger, b: &SignedInteger) -> bool {
+    // Negative zero is zero
+    let a_neg = a.is_neg && a.value.value != 0;
+    let b_neg = b.is_neg && b.value.value != 0;
+    match (a_neg, b_neg) {
+        (true, false) => true,
+        (false, true) => false,
+        (false, false) => a.value.value < b.value.value,
+        // Both negative: the larger magnitude is the smaller number
+        (true, true) => a.value.value > b.value.value,
+    }
+}
+
 struct RuleDeclSubrangeLimits {
     diagnostics: Vec<Diagnostic>,
 }
@@ -47,10 +64,7 @@ impl Visitor<Diagnostic> for RuleDeclSubrangeLimits {
     type Value = ();
 
     fn visit_subrange(&mut self, node: &Subrange) -> Result<(), Diagnostic> {
-        let minimum: i128 = node.start.clone().try_into().expect("Value in range i128");
-        let maximum: i128 = node.end.clone().try_into().expect("Value in range i128");
-
-        if minimum >= maximum {
+        if !is_strictly_less(&node.start, &node.end) {
             self.diagnostics.push(
                 Diagnostic::problem(
                     Problem::SubrangeMinStrictlyLessMax,
